@@ -497,6 +497,16 @@ func builtBoxes() []Seed {
 		fb("sbgp", 0, 0, []byte("seig"), u32(1), u32(3), u32(0x10001)), fb("sgpd", 1, 0, []byte("seig"), u32(20), u32(1), seig),
 		fb("subs", 0, 0, u32(1), u32(1), u16(1), u16(100), u8(0, 0), u32(0)))
 	add("traf", "encrypted-all-boxes", trafEnc)
+	// senc boxes whose IV size has to be guessed (no saiz, no moov): 16-byte IVs that are zero-padded 8-byte
+	// IVs, so that a first walk with 8-byte IVs reads the padding as subsample_count 0 and only fails on leftover bytes
+	for _, n := range []int{1, 2, 3} {
+		p := u32(uint32(n))
+		for i := 0; i < n; i++ {
+			p = cat(p, seq(8, byte(0x21+16*i)), zeros(8), u16(1), u16(uint16(10+i)), u32(uint32(300+i)))
+		}
+		tr := bx("traf", tfhd(0x20000), fb("tfdt", 0, 0, u32(0)), trun(0, 0x201, n), fb("senc", 0, 2, p))
+		add("moof", fmt.Sprintf("senc-iv-size-guess,%d-zero-padded-ivs", n), bx("moof", fb("mfhd", 0, 0, u32(1)), tr))
+	}
 	add("moof", "2traf", bx("moof", fb("mfhd", 0, 0, u32(5)), trafEnc, bx("traf", tfhd(0x20000), fb("tfdt", 0, 0, u32(1000)), trun(0, 0x201, 2), trun(0, 0x305, 1))))
 
 	// --- user data / metadata
